@@ -478,8 +478,11 @@ def mon_limits(ctx, conn):
                 viol(ctx, conn, "stream-table-above-limit", dict(strms=d["strms"], limit=mcs), known_class="priority-created-stream")
             if d["ring"] > 256:
                 viol(ctx, conn, "closed-ring-above-cap", dict(ring=d["ring"]))
-            if mhl > 0 and d["held"] > mhl + 16384 + 9:
-                viol(ctx, conn, "held-header-octets-above-limit", dict(held=d["held"], limit=mhl), known_class="unfinished-field-buffered")
+            # octets of a header field that is not complete yet, summed over the table: 4 * MaxHeaderListSize each at
+            # most (F68 repaired; Props/C13 Full.held_header_octets_bounded), and only the stream whose header block is
+            # open holds any (one block at a time per connection)
+            if mhl > 0 and d["held"] > 4 * mhl:
+                viol(ctx, conn, "held-header-octets-above-limit", dict(held=d["held"], limit=mhl, bound=4 * mhl))
         for name, args in parse_out(out):
             if name == "dispatch":
                 m = re.search(r"b=(\d+):", args)
@@ -880,7 +883,9 @@ def run_c10(ctx):
 
 def run_c13(ctx):
     return run_family(ctx, ["srv-limits", "srv-acct"], [mon_limits],
-                      "srv-limits: 30-90 step adversarial schedules with MaxConcurrentStreams 1-4, MaxHeaderListSize 2000, MaxRequestBodySize 500: rapid HEADERS+RST with parked handlers, half-open streams, endless CONTINUATION, oversized and mis-declared bodies, late frames; gauges sampled every 10 steps.")
+                      "srv-limits: 30-90 step adversarial schedules with MaxConcurrentStreams 1-4, MaxHeaderListSize 2000, MaxRequestBodySize 500: rapid HEADERS+RST with parked handlers, half-open streams, endless CONTINUATION, oversized and mis-declared bodies, late frames; gauges sampled every 10 steps. "
+                      "Both families end with the header field that never ends (F68): a literal whose value length prefix announces 100, list limit -1/+1 and exactly-fits/+1, 4*limit-1/+1, 2^22, 2^40 octets, begun in HEADERS without END_HEADERS (sometimes cut inside its own prefix) and fed in CONTINUATION frames of 1-300 and ~16384 octets (srv-limits) or so that the octets held are 4*limit-1, 4*limit, 4*limit+1 after consecutive frames (srv-acct); gauges after every frame; then known/F68.ops.",
+                      regress=["known/F68.ops"])
 
 
 def run_c14(ctx):
